@@ -7,6 +7,7 @@ import os
 from pbt import standins
 
 handler = None  # callable(cdb, dataout, datain) -> (status, sense-bytes-or-None)
+routes = {}  # device node path -> handler (takes precedence over the global handler)
 
 
 class CheckConditionError(Exception):
@@ -32,9 +33,10 @@ def execute(fid, cdb, data_out, data_in, max_sense_data_length=32, return_sense_
                          None if data_in is None else len(data_in), fid))
     if closed:
         raise ValueError("I/O operation on closed file")
-    if handler is None:
+    h = routes.get(getattr(fid, "name", None), handler)
+    if h is None:
         return 0
-    status, sense = handler(cdb, data_out, data_in)
+    status, sense = h(cdb, data_out, data_in)
     if status == 0x00:
         return 0
     if status == 0x02:
